@@ -215,6 +215,8 @@ def run_shard(job):
                     _derived(n, st, root_out, props, vios, res)
             if "C12" in props:
                 _c12_histories(n, st0, vios, res)
+                for st in (list(orb) if n <= 3 else targets):
+                    _c12_derived_inputs(n, st, vios, res)
             res["orbits"].append((st0, root_out["s"], len(orb), orbit_nontrivial))
             if len(res["samples"]) < 1:
                 res["samples"].append({"n": n, "colours": [list(COLOURS[c]) for c in st0[0]],
@@ -426,59 +428,116 @@ def _c13_root(n, st0, root_out, vios, res):
 _IGNORED_NODE_KEYS = ("partition",)
 
 
-def _c12_state(n, st, g, gc, s, vios, res):
-    """g was read from the 'rich' rendering: x = label+1 unique, chg pattern, bond types pattern."""
-    colors, mask = st
-    # argument unchanged by canonicalize? (g was snapshotted implicitly: re-read and compare)
+def _c12_state(n, st, g, gc, s, vios, res, tag=""):
+    """g carries the tracer x = original atom + 1 (unique), a charge pattern and a bond type pattern. Atoms are
+    identified through x on both sides, so g may be labelled/ordered in any way."""
     from tucan.canonicalization import canonicalize_molecule
     from tucan.serialization import serialize_molecule
 
+    def vio(key, msg):
+        vios.append((key + tag, {"kind": "e1", "n": n, "state": st, "summary": (tag.strip("|") + ": " if tag else "") + msg}))
+
     before = snapshot(g)
-    gc2 = canonicalize_molecule(g)
+    try:
+        gc2 = canonicalize_molecule(g)
+    except Exception as ex:
+        vio("C12|exc", f"canonicalize_molecule raised {type(ex).__name__}: {ex}")
+        return
     after = snapshot(g)
     res["exec"] += 1
     if before != after:
-        vios.append(("C12|arg-mutated", {"kind": "e1", "n": n, "state": st,
-                                         "summary": "canonicalize_molecule mutated its argument"}))
-    # bijection via x trace
-    nodes = sorted(gc2.nodes)
+        vio("C12|arg-mutated", "canonicalize_molecule mutated its argument")
+    nodes = sorted(gc2.nodes, key=repr)
     if nodes != list(range(n)):
-        vios.append(("C12|nodes", {"kind": "e1", "n": n, "state": st,
-                                   "summary": f"canonical nodes {nodes} are not 0..{n - 1}"}))
+        vio("C12|nodes", f"canonical nodes {nodes} are not 0..{n - 1}")
         return
-    old_of = {}
+    in_by_x = {int(round(d["x_coord"])): (k, d) for k, d in g.nodes(data=True)}
+    out_by_x = {}
     for k, d in gc2.nodes(data=True):
-        old_of[k] = int(round(d["x_coord"])) - 1
-    if sorted(old_of.values()) != list(range(n)):
-        vios.append(("C12|bijection", {"kind": "e1", "n": n, "state": st,
-                                       "summary": f"renaming is not one-to-one: {old_of}"}))
+        x = int(round(d.get("x_coord", -1)))
+        if x in out_by_x:
+            vio("C12|bijection", f"two canonical atoms carry the data of input atom x={x}")
+            return
+        out_by_x[x] = (k, d)
+    if sorted(out_by_x) != sorted(in_by_x):
+        vio("C12|bijection", f"renaming is not one-to-one: tracers {sorted(out_by_x)} vs {sorted(in_by_x)}")
         return
-    for k in range(n):
-        a = {kk: vv for kk, vv in g.nodes[old_of[k]].items() if kk not in _IGNORED_NODE_KEYS}
-        b = {kk: vv for kk, vv in gc2.nodes[k].items() if kk not in _IGNORED_NODE_KEYS}
+    for x, (k_in, d_in) in in_by_x.items():
+        a = {kk: vv for kk, vv in d_in.items() if kk not in _IGNORED_NODE_KEYS}
+        b = {kk: vv for kk, vv in out_by_x[x][1].items() if kk not in _IGNORED_NODE_KEYS}
         if a != b:
-            vios.append(("C12|attrs", {"kind": "e1", "n": n, "state": st,
-                                       "summary": f"atom attributes changed: {a} -> {b}"}))
+            vio("C12|attrs", f"atom attributes changed: {a} -> {b}")
             break
-    new_of = {v: k for k, v in old_of.items()}
-    e_in = {frozenset((new_of[a], new_of[b])): dict(d) for a, b, d in g.edges(data=True)}
-    e_out = {frozenset((a, b)): dict(d) for a, b, d in gc2.edges(data=True)}
-    if e_in != e_out:
-        vios.append(("C12|bonds", {"kind": "e1", "n": n, "state": st,
-                                   "summary": f"bonds/bond types not carried: {e_in} -> {e_out}"}))
+    x_of_in = {k: x for x, (k, _) in in_by_x.items()}
+    x_of_out = {k: x for x, (k, _) in out_by_x.items()}
+    e_in = {frozenset((x_of_in[a], x_of_in[b])): dict(d) for a, b, d in g.edges(data=True)}
+    e_out = {frozenset((x_of_out[a], x_of_out[b])): dict(d) for a, b, d in gc2.edges(data=True)}
+    if e_in != e_out or gc2.number_of_edges() != g.number_of_edges():
+        vio("C12|bonds", f"bonds/bond types not carried: {e_in} -> {e_out}")
     # serialize must not alter chemically meaningful attributes, scratch flag back to reset value
     b4 = snapshot(gc2)
-    s2 = serialize_molecule(gc2)
+    try:
+        s2 = serialize_molecule(gc2)
+        s3 = serialize_molecule(gc2)
+    except Exception as ex:
+        vio("C12|serialize-exc", f"serialize_molecule (called twice on one graph) raised {type(ex).__name__}: {ex}")
+        return
     af = snapshot(gc2)
     if _strip_scratch(b4) != _strip_scratch(af):
-        vios.append(("C12|serialize-mutates", {"kind": "e1", "n": n, "state": st,
-                                               "summary": "serialize_molecule changed its argument"}))
+        vio("C12|serialize-mutates", "serialize_molecule changed its argument")
     if any(v for _, d in gc2.nodes(data=True) for k, v in d.items() if k == "explored"):
-        vios.append(("C12|scratch", {"kind": "e1", "n": n, "state": st,
-                                     "summary": "scratch flag not reset after serialize_molecule"}))
-    if s2 != s:
-        vios.append(("C12|repeat", {"kind": "e1", "n": n, "state": st,
-                                    "summary": f"repeated canonicalize+serialize differs: {s!r} vs {s2!r}"}))
+        vio("C12|scratch", "scratch flag not reset after serialize_molecule")
+    if s2 != s or s3 != s:
+        vio("C12|repeat", f"repeated canonicalize+serialize differs: {s!r} vs {s2!r} / {s3!r}")
+    # the caller owns the result: scribble on it; canonicalizing the same input again must be unaffected
+    ref = snapshot(gc2)
+    for _, d in gc2.nodes(data=True):
+        d["element_symbol"] = "Xx"
+    gc2.add_edge(10 ** 6, 10 ** 6 + 1)
+    try:
+        again = _strip_scratch(snapshot(canonicalize_molecule(g)))
+    except Exception as ex:
+        vio("C12|aliased-result", f"canonicalizing the same input again raised {type(ex).__name__}")
+        return
+    if again != _strip_scratch(ref):
+        vio("C12|aliased-result", "canonicalizing the same input again after the caller modified the first result gives a different graph")
+
+
+def _c12_derived_inputs(n, st, vios, res):
+    """C12 oracle on graph-level descriptions whose labels differ from iteration order / are not 0..n-1."""
+    import networkx as nx
+    from tucan.canonicalization import canonicalize_molecule
+    from tucan.serialization import serialize_molecule
+
+    if n < 2:
+        return
+    g, gc, s, text = pipeline(n, st, rich=True)
+    variants = {
+        "relabel-input": lambda: nx.relabel_nodes(g, {0: n - 1, n - 1: 0}, copy=True),
+        "canonical-as-input": lambda: canonicalize_molecule(g),
+        "offset-labels": lambda: nx.relabel_nodes(g, {k: k + 3 for k in range(n)}, copy=True),
+    }
+
+    def rev():
+        h = nx.Graph()
+        h.add_nodes_from(reversed(list(g.nodes(data=True))))
+        h.add_edges_from(g.edges(data=True))
+        return h
+    variants["reversed-insertion"] = rev
+    for name, mk in variants.items():
+        try:
+            h = mk()
+        except Exception as ex:
+            vios.append((f"C12|derived-exc|{name}", {"kind": "e1", "n": n, "state": st, "summary": f"{name}: {ex!r}"}))
+            continue
+        res["transitions"] += 1
+        sub = []
+        _c12_state(n, st, h, None, s, sub, res, tag=f"|{name}")
+        for key, case in sub:
+            case = dict(case)
+            case["kind"] = "e1-c12-derived"
+            case["variant"] = name
+            vios.append((key, case))
 
 
 def _strip_scratch(snap):
@@ -517,6 +576,28 @@ def _c12_histories(n, st0, vios, res):
         case["kind"] = "e1-history"
         case["summary"] = "second drawing of the same skeleton, canonicalized after the first: " + case["summary"]
         vios.append((key + "|second-drawing", case))
+    # the caller edits its own graph object in place between two calls (one bond removed or added): the second result
+    # must be that of the edited molecule, i.e. equal to canonicalizing an equal graph built from scratch
+    if n >= 2:
+        try:
+            m_edit = graph_from_molfile_text(text)
+            canonicalize_molecule(m_edit)
+            if bonds:
+                m_edit.remove_edge(*bonds[0])
+                bonds_e, bt_e = bonds[1:], btypes[1:]
+            else:
+                m_edit.add_edge(0, n - 1, bond_type=1)
+                bonds_e, bt_e = [(0, n - 1)], [1]
+            got = canonicalize_molecule(m_edit)
+            fresh = canonicalize_molecule(graph_from_molfile_text(G.render_v3000(n, resolve(colors), bonds_e, xs, chgs, bt_e)))
+            res["exec"] += 2
+            if canon_signature(got) != canon_signature(fresh) or serialize_molecule(got) != serialize_molecule(fresh):
+                vios.append(("C12|in-place-edit", {"kind": "e1-history", "n": n, "state": st0, "molfile": text,
+                                                   "summary": "after the caller edited a bond of its graph in place, canonicalization "
+                                                              "returns a result that is not the edited molecule's"}))
+        except Exception as ex:
+            vios.append(("C12|in-place-edit|exc", {"kind": "e1-history", "n": n, "state": st0, "molfile": text,
+                                                   "summary": f"canonicalizing an edited graph raised {type(ex).__name__}: {ex}"}))
     ref_m = graph_from_molfile_text(text)
     ref_mc = canonicalize_molecule(ref_m)
     ref_sig = snapshot(ref_mc)
@@ -527,16 +608,19 @@ def _c12_histories(n, st0, vios, res):
             m = graph_from_molfile_text(text)
             mc = canonicalize_molecule(m)
             ok = True
-            for op in hist:
-                if op == "c":
-                    r = canonicalize_molecule(m)
-                    ok = snapshot(r) == ref_sig
-                elif op == "s":
-                    ok = serialize_molecule(mc) == ref_s
-                else:
-                    ok = serialize_molecule(canonicalize_molecule(m)) == ref_s
-                if not ok:
-                    break
+            try:
+                for op in hist:
+                    if op == "c":
+                        r = canonicalize_molecule(m)
+                        ok = snapshot(r) == ref_sig
+                    elif op == "s":
+                        ok = serialize_molecule(mc) == ref_s
+                    else:
+                        ok = serialize_molecule(canonicalize_molecule(m)) == ref_s
+                    if not ok:
+                        break
+            except Exception:
+                ok = False
             res["hist_exec"] += 1
             res["transitions"] += L
             if not ok or _strip_scratch(snapshot(m)) != _strip_scratch(snapshot(ref_m)):
